@@ -71,13 +71,13 @@ class C18(CheckBase):
     stubbed_components = ['the terminal: fstat()/ioctl(TCGETS) answers on stdout decided by simkernel']
 
     def budget(self, tier):
-        return 900 if tier == 'quick' else 20000
+        return 1100 if tier == 'quick' else 20000
 
     def time_cap(self, tier):
         return 600 if tier == 'quick' else 5400
 
     def gen_case(self, rng, tier, index):
-        src = rng.weighted([(8, 'generated'), (3, 'flux'), (3, 'damaged'), (4, 'genflux')])
+        src = rng.weighted([(8, 'generated'), (3, 'flux'), (3, 'damaged'), (7, 'genflux')])
         case = {}
         if src == 'generated':
             image = dfswork.gen_image(rng)
@@ -89,7 +89,7 @@ class C18(CheckBase):
         elif src == 'genflux':
             # half of these images are intact (and so accepted): option independence of the container and track decoders
             # shows on images that load, not only on ones that are refused either way
-            fc, dmg = fluxwork.gen_hostile_flux(rng, sides=1, none_weight=8)
+            fc, dmg = fluxwork.gen_hostile_flux(rng, sides=1, none_weight=8, container=rng.weighted([(2, 'hfe1'), (2, 'hfe3'), (4, 'mfm')]))
             surfaces = [dd.gen_surface(rng, variant='acorn', geom=(fc['tracks'], fc['spt']), img_id=8, side=0).to_json()]
             image = {'genflux': fc, 'surfaces': surfaces, 'damage': dmg, 'ext': 'mfm' if fc['container'] == 'mfm' else 'hfe'}
             ops = []
@@ -102,6 +102,19 @@ class C18(CheckBase):
                 image = {'flux_base': base, 'ext': 'hfe' if '.hfe' in base else 'mfm'}
                 size = len(c07.flux_base(base))
             ops = c07.CHECK.gen_ops(rng, image['ext'], size)
+        if src == 'generated' and rng.chance(0.07):
+            # an HDFS-flagged catalogue (bit 3 of byte 0x106; such catalogues carry no cycle number), with or without a
+            # title: the presentation styles must still agree on everything else
+            sj = image['surfaces'][0]
+            if sj['variant'] == 'acorn' and sj['volumes']:
+                sj['post'] = dict(sj.get('post') or {}, **{'262': [255, 8]})
+                if rng.chance(0.7):
+                    sj['volumes'][0]['title'] = b''
+                cmd_override = [rng.choice(['cat', 'cat', 'cat', 'info', 'free']), ] if rng.chance(0.8) else None
+            else:
+                cmd_override = None
+        else:
+            cmd_override = None
         # avoid a bare 'L' entry
         for s in image.get('surfaces', []):
             for v in s['volumes']:
@@ -117,6 +130,8 @@ class C18(CheckBase):
             cmd = c07.CHECK.gen_command(rng, image)
             if cmd[0] in ('extract-files', 'extract-unused'):
                 cmd = ['cat']
+        if cmd_override:
+            cmd = cmd_override + (['*.*'] if cmd_override[0] == 'info' else [])
         aimed = False
         if src == 'genflux' and rng.chance(0.5):
             # aim the medium damage at the file the command reads: the gap and sync run in front of one data field
@@ -140,7 +155,7 @@ class C18(CheckBase):
                     if rng.chance(0.6):
                         # a track that lacks its highest-numbered (or lowest-numbered) record is still usable, one that
                         # lacks a record in between is not: losing these is survivable, so the recovery path shows
-                        rec = rng.weighted([(5, s0.spt - 1), (2, 0)])
+                        rec = rng.weighted([(4, s0.spt - 1), (4, 0)])
                         op.update(rec=rec, region='gap2', off=0, len=rng.choice([600, 2000]), v=0)
                         if fc.get('order') in (None, 'seq') and rng.chance(0.7):
                             # ... provided another record follows it physically
@@ -149,6 +164,10 @@ class C18(CheckBase):
                 cmd = [rng.choice(['type', 'dump', 'list']), dfswork.fsp(v, f, 0, 'full')]
                 aimed = True
         variants = []
+        if cmd_override:
+            # (the styles differ most in the catalogue header: title, cycle number, density line)
+            variants.append({'k': 'ui', 'ui': 'opus', 'pos': rng.choice(['pre', 'post'])})
+            variants.append({'k': 'ui', 'ui': rng.choice(['watford', 'acorn']), 'pos': 'pre'})
         if not aimed and src in ('flux', 'genflux') and rng.chance(0.6):
             # flux containers are decoded while --file is processed: only a --verbose in front of it can reach the decoders
             variants.append({'k': 'diag', 'opts': ['--verbose'], 'pos': 'pre'})
